@@ -3,7 +3,7 @@ from tools.extract import Unit, Rw
 from tools.krun import Harness
 
 PROPERTY = "C05"
-PRELUDE = ["../common/base.rs", "prelude.rs", "lists.rs"]
+PRELUDE = ["../common/base.rs", "prelude.rs", "lists.rs", "trees.rs"]
 CK = "crates/core/src/commands/check.rs"
 R_ERR = Rw("", "verr()", count=None, kind="err", why="RusticError construction (kind/message/context dropped)")
 R_MAPERR = Rw("", "", count=None, kind="maperr", why=".map_err(<error building closure>) -> .vmap_err()")
@@ -206,6 +206,44 @@ UNITS += [
             assert(files_hot@[k] == (x.0, files_hot@[k].1));
         }
     }""")],
+         ),
+]
+
+# ---- check_trees: the per-tree node loop (the tree stream itself is a thread pipeline: not covered)
+UNITS += [
+    Unit(name="check_tree_nodes", file=CK, kind="block", within="fn check_trees<S: Open>(",
+         anchor="for node in tree.nodes {", block_end="@for_end",
+         block_sig="fn check_tree_nodes(tree: Tree, path: PathBufR, index: &VIndex, packs: &mut VSet<PackId>, collector: &CheckResultsCollector)",
+         block_tail="",
+         functions=["commands::check::check_trees (per-tree loop over the nodes: every referenced blob is indexed, its pack recorded)"],
+         rewrites=[
+             R_DROP_E, R_DROP_W,
+             Rw("for node in tree.nodes {", "for node in it: tree.nodes.iter() {", why="Verus for-loop syntax; iteration by reference"),
+             Rw("NodeType::File => node.content.as_ref().map_or_else(", "NodeType::File => match node.content.as_ref() {", why="Option::map_or_else(|| A, |content| B) -> match { None => A, Some(content) => B } (closures capturing `packs` mutably are outside Verus)"),
+             Rw("                    || {\n", "                    None => {\n", why="map_or_else -> match (None arm)"),
+             Rw("                    |content| {\n", "                    Some(content) => {\n", why="map_or_else -> match (Some arm)"),
+             Rw("                    },\n                ),\n", "                    },\n                },\n", why="map_or_else -> match (closing)"),
+             Rw("for (i, id) in content.iter().enumerate() {", "let mut vi: usize = 0; let vclen = content.len(); for id in it3: content.iter() { let i = vi; proof { assert(it3.index@ < content@.len()); } vi = vi + 1;", why="enumerate() -> explicit exec counter (Verus has no iterator adapters)"),
+             Rw("_ = packs.insert(", "let _ = packs.insert(", count=None, why="destructuring assignment `_ =` -> `let _ =`"),
+         ],
+         contract="""
+    ensures
+        // runs that reported NO error: every file has content, every content / subtree id is non-null and indexed,
+        // and the pack holding it is in the set of packs that check goes on to read
+        /*@no_error_implies_every_node_indexed*/ forall|k: int| 0 <= k < tree.nodes@.len() ==> node_ok(#[trigger] tree.nodes@[k], *index, final(packs)@),
+        /*@packs_only_grow*/ old(packs)@.subset_of(final(packs)@),
+""",
+         loops={1: """
+            invariant
+                old(packs)@.subset_of(packs@),
+                forall|k: int| 0 <= k < it.index@ ==> node_ok(#[trigger] tree.nodes@[k], *index, packs@),
+""", 2: """
+                            invariant
+                                node.content == Some(*content), pk0.subset_of(packs@), vi == it3.index@, vclen == content@.len(),
+                                forall|k: int| 0 <= k < it3.index@ ==> (#[trigger] content@[k]).0 != 0 && index.data().dom().contains(content@[k]) && packs@.contains(index.data()[content@[k]]),
+"""},
+         hints=[("loop_start", "1", "            let ghost pk0 = packs@; proof { assert(tree.nodes@[it.index@] == *node); }"),
+                ("loop_start", "2", "                            proof { assert(content@[it3.index@] == *id); }")],
          ),
 ]
 KANI = []
